@@ -64,6 +64,7 @@ def main():
             env = dict(os.environ)
             env["VERIF_SEED"] = args.seed
             env["SELFIES_REPO"] = target
+            env["VERIF_EVIDENCE_DIR"] = "/tmp/seedeval_evidence"
             r = subprocess.run(["/venv/bin/python", os.path.join(HERE, "check.py"), "--property", p, "--tier", args.tier],
                                cwd=VERIF, stdout=subprocess.PIPE, stderr=subprocess.STDOUT, env=env, timeout=7200)
             out = r.stdout.decode(errors="replace")
